@@ -28,11 +28,11 @@ CHECKS = {
    text="For each subject the number K of mutating requests is measured fault-free, then every k in 0..K is executed: the client dies right after its k-th PUT/DELETE, the connection is abandoned, and a read-only open, a read-write recovery open and a further read-only open of the frozen bucket must succeed and show exactly the old or the new contents, the same in all three, the new ones if the commit had been acknowledged. Enumeration over k is complete per subject; subjects are sampled.",
    note="Crash model: whole-object atomic requests, prefix of the client's mutation sequence takes effect. Concurrent node PUTs of one flush make the prefix a sample of 'k of them landed'. Garbage nodes are allowed."),
  "C14": dict(level="fault_enumeration", design="§4 C14",
-   technique="runtime monitoring with fault injection: a failing (once/persistent; connection reset, 503, or truncated GET body) or deadline-blocked request at every request position of a target statement, including raced opens/refreshes that read retired versions from their second location; retries of failed writes; result compared with the fault-free run; liveness watchdog on logical quiescence; recovery probes",
+   technique="runtime monitoring with fault injection: a failing (once/persistent/read-outage; connection reset, 503, or truncated GET body) or deadline-blocked request at every request position of a target statement, including raced opens/refreshes that read retired versions from their second location; retries of failed writes; result compared with the fault-free run; liveness watchdog on logical quiescence; recovery probes",
    text="For 19 kinds of target statement (opens with merge, scans, lookups, writes incl. the REAL twin of stored INTEGER keys, commits, refresh, changes, vacuum) every request position up to 60 is faulted with a single error, a persistent error and (3 positions) a request blocking until the connection's deadline; each run must give an error or exactly the fault-free result, acknowledged writes must be visible to a fresh open afterwards, the process must survive, the statement must return, the connection's own un-refreshed view must show no trace of a failed statement, follow-up writes on that connection must publish complete versions that lose nothing, and the same and a new connection must work again after the fault clears.",
    note="Transport fault = non-retryable request error; deadline fault = request blocks until the context is done (1-2 s). Hang verdict is logical: no request in flight and none for 30 s. NoSuchKey is not treated as a fault."),
  "C09": dict(level="exploration", design="§4 C09",
-   technique="runtime monitoring: dump equality across vacuum (same/fresh/historic opens), independent bucket walk of every retained version, crash and single-failure injection at every mutating request of sampled vacuums, returns to reclaimed content (same and other connection, node cache on in a slice), version-stamp monitor against the harness clock, virtual clock through hook H3",
+   technique="runtime monitoring: dump equality across vacuum (same/fresh/historic opens), independent bucket walk of every retained version, crash and single-failure injection at every mutating request of sampled vacuums, returns to reclaimed content (same and other connection, node cache on in a slice; deterministic one-column scenarios cache-return and keep-walk), GET failures at the last 60 requests of the vacuum, quiescence after recovery, version-stamp monitor against the harness clock, virtual clock through hook H3",
    text="Histories built to share content-addressed nodes between old and new versions (insert-then-delete, revert, delete-all, earlier vacuums, merges) are vacuumed with cutoffs before/at/between/after the version stamps and delete times; rows through the same connection, a fresh connection and every earlier version created at or after the cutoff must be unchanged, every version still listed must reach only existing decodable nodes, later writes must work; half of the cases let write times lag behind the version clock so that markers are purged while all versions are retained, then purge a transient key and run a final vacuum with a cutoff after everything, re-applying all oracles; one case in three repeats the vacuum with a crash after every mutating request and checks the recovery opens.",
    note="Creation time = the stamp in the version object (handle's last open/refresh). The vacuuming handle has merged everything (vacuum next to unmerged forks older than the cutoff is documented as unsafe). After a crash, version objects the interrupted vacuum was about to remove are not counted as retained."),
  "C10": dict(level="exploration", design="§4 C10",
@@ -52,7 +52,7 @@ CHECKS = {
    text="Histories of 1-4 writers record s3db_version() and the rows after every step; earlier versions are re-read at later steps and all of them at the end, three independent ways, and must return the recorded rows; version names must be stable across no-op steps, change with the contents, and a read-only table must list exactly the unmerged versions.",
    note="No vacuum in these histories (exempted by the property); retries not generated."),
  "C12": dict(level="exploration", design="§4 C12",
-   technique="runtime monitoring: inclusion oracle over recorded snapshots for all ordered version pairs + exhaustive single-fault sweep over the request positions of sampled diffs",
+   technique="runtime monitoring: inclusion oracle over recorded snapshots for all ordered version pairs (also read as the inner table of a join, through multi-version read-only tables, and from a long-lived changes table) + exhaustive single-fault sweep over the request positions of sampled diffs",
    text="For all ordered pairs of recorded versions (all up to 12, sampled beyond; 'to' omitted included) the rows of s3db_changes must be rows of B with identical values and contain every row of B that is absent from or different in A, without error; for sampled differing pairs an injected storage error at every request position of the diff must give an error or an answer satisfying the same inclusions.",
    note="R = diff is not demanded. Fault sweep is exhaustive per sampled pair only."),
  "C01": dict(level="exploration", design="§4 C01",
